@@ -1145,7 +1145,7 @@ func (d *Data) Partition(ctx storage.Context, batchsize int32) ([]byte, error) {
 
 		// If we are in new layer, process last one.
 		z := index.start.Value(2)
-		if z > layerEndZ {
+		for z > layerEndZ { // a gap in Z can span more than one layer
 			// Process last layer
 			dvid.Debugf("Computing subvolumes in layer with Z %d -> %d (dz %d)\n",
 				layer.minZ, layer.maxZ, layer.maxZ-layer.minZ+1)
@@ -1286,7 +1286,7 @@ func (d *Data) SimplePartition(ctx storage.Context, batchsize int32) ([]byte, er
 
 		// If we are in new layer, process last one.
 		z := index.start.Value(2)
-		if z > layerEndZ {
+		for z > layerEndZ { // a gap in Z can span more than one layer
 			// Process last layer
 			dvid.Debugf("Computing subvolumes in layer with Z %d -> %d (dz %d)\n", layer.minZ, layer.maxZ, layer.maxZ-layer.minZ+1)
 			d.addSubvolumesGrid(layer, &subvolumes, batchsize)
